@@ -395,6 +395,8 @@ Definition binary_node_type (op : binop) (lt rt : ty) : ty :=
 
 (* validateBinaryType: true = no error appended *)
 Definition validate_binary (op : binop) (lt rt : ty) : bool :=
+  if is_none lt || is_none rt then false       (* "takes values, found none": a call without a return value is not an operand *)
+  else
   if negb (matches lt rt || (is_array_name lt && match op with OpAsterisk => true | _ => false end)) then false
   else match op with
        | OpPlus => is_num lt || is_string lt || is_array_name lt
@@ -446,6 +448,23 @@ Definition range_var_type (t : ty) : option (option ty) :=
   | _ => None
   end.
 
+(* parseForStatement + parseStepRange on the types of the range operands:
+   true = no error appended (and no nil) *)
+Definition range_operands_ok (ts : list ty) : bool :=
+  match ts with
+  | [] => false                                            (* "range cannot be empty" *)
+  | t :: rest =>
+      if negb (Nat.eqb (List.length rest) 0) && negb (name_eqb (name t) NUM) then false
+                                                           (* "range with more than one argument must be num" *)
+      else match name t with
+           | STRING | MAP | ARRAY => true
+           | NUM =>                                        (* parseStepRange *)
+               if Nat.ltb 3 (List.length ts) then false    (* "range can take up to 3 num arguments" *)
+               else forallb is_num (firstn 3 ts)           (* "range expects num type for i-th argument" *)
+           | _ => false                                    (* "expected num, string, array or map after range" *)
+           end
+  end.
+
 (* ---------- parseType: source type -> *Type ---------- *)
 Fixpoint embed (s : sty) : ty :=
   match s with
@@ -475,6 +494,20 @@ Fixpoint seq_outcomes (os : list outcome) : option (option (list node * bool)) :
       if is_none (node_type n) then Some None       (* "array element has no value" / "map value has no value": error, nil *)
       else
       match seq_outcomes rest with
+      | None => None
+      | Some None => Some None
+      | Some (Some (ns, e')) => Some (Some (n :: ns, e || e'))
+      end
+  end.
+
+(* parseExprList: like seq_outcomes without the none-element rule *)
+Fixpoint seq_operands (os : list outcome) : option (option (list node * bool)) :=
+  match os with
+  | [] => Some (Some ([], false))
+  | OCrash :: _ => None
+  | ONil :: _ => Some None
+  | ONode n e :: rest =>
+      match seq_operands rest with
       | None => None
       | Some None => Some None
       | Some (Some (ns, e')) => Some (Some (n :: ns, e || e'))
@@ -739,6 +772,23 @@ Definition check (c : ctx) (e : expr) : result :=
           end
       end
   | CAssignCall _ => Reject        (* "cannot assign to f as it is a function not a variable" *)
+  | CRangeMore rest =>
+      (* parseExprList: operands left to right, the first nil aborts ("range cannot be empty") *)
+      match seq_operands (map tc (e :: rest)) with
+      | None => Crash
+      | Some None => Reject
+      | Some (Some (ns, err)) =>
+          if range_operands_ok (map node_type ns) && negb err then
+            match ns with
+            | [n] => match range_var_type (node_type n) with
+                     | Some (Some vt) => Accept vt vt
+                     | Some None => Crash
+                     | None => Reject
+                     end
+            | _ => Accept TNum TNum
+            end
+          else Reject
+      end
   | CRange =>
       match tc e with
       | OCrash => Crash
@@ -901,6 +951,17 @@ Definition dec_ctx (x : sx) : option ctx :=
       else if sym_is x "range" then Some CRange else if sym_is x "garr" then Some CGenericArr
       else if sym_is x "gmap" then Some CGenericMap else None
   | Lst [k; t] =>
+      if sym_is k "rangemore" then
+        match t with
+        | Lst more =>
+            (fix go (l : list sx) (acc : list expr) : option ctx :=
+               match l with
+               | [] => Some (CRangeMore (rev acc))
+               | y :: r => match dec_expr y with Some e => go r (e :: acc) | None => None end
+               end) more []
+        | _ => None
+        end
+      else
       match dec_sty t with
       | Some t =>
           if sym_is k "assign" then Some (CAssign t) else if sym_is k "param" then Some (CParam t)
